@@ -179,7 +179,7 @@ def generate(repo):
         tseed, twhy = seed_of(src, r"inline\s+auto\s+hash\s*\(\s*const\s+std::tuple\s*<\s*T\s*\.\.\.\s*>\s*&\s*t\s*\)\s*\{",
                               r"detail::hash_combine_tuple ?< ?0 ?> ?\( ?seed ?, ?t ?\)")
         vseed, vwhy = seed_of(src, r"inline\s+auto\s+hash\s*\(\s*const\s+std::variant\s*<\s*T\s*\.\.\.\s*>\s*&\s*t\s*\)\s*\{",
-                              r"detail::hash_combine_variant ?< ?0 ?> ?\( ?seed ?, ?t ?\)")
+                              r"detail::hash_combine_variant ?(?:< ?0 ?> ?)?\( ?seed ?, ?t ?\)")   # with or without the start index
     c = consts or [None, None, None]
     text = """(* GENERATED by gen/tr_hash.py from the repository on every run — do not edit.
    Constants of nitro::lang::detail::hash_combine_impl and the initial seeds of hash(tuple) / hash(variant). %s *)
